@@ -186,6 +186,7 @@ type Request struct {
 type Server struct {
 	start    time.Time
 	plan     []Resp
+	tail     atomic.Value // Resp: answer to every request beyond the plan (default: empty 200)
 	downSalt uint32
 	probe    atomic.Value // func() int64
 
@@ -206,7 +207,7 @@ type Server struct {
 }
 
 // New starts a server that answers request number i with plan[i] (requests
-// beyond the plan get an empty 200) and takes response bodies from the stream
+// beyond the plan get an empty 200 unless SetTail is used) and takes response bodies from the stream
 // identified by downSalt.
 func New(plan []Resp, downSalt uint32) *Server {
 	s := &Server{start: time.Now(), plan: append([]Resp(nil), plan...), downSalt: downSalt,
@@ -215,6 +216,11 @@ func New(plan []Resp, downSalt uint32) *Server {
 	go func() { _ = s.srv.Serve(s.ln) }()
 	return s
 }
+
+// SetTail makes the server answer every request beyond the plan with r instead
+// of an empty 200 (a download that never runs dry).  Call it before the first
+// request.
+func (s *Server) SetTail(r Resp) { s.tail.Store(r) }
 
 // SetProbe installs a function whose value is recorded for every request at
 // the moment its body has been read (e.g. "bytes handed to Write so far").
@@ -310,6 +316,8 @@ func (s *Server) ServeHTTP(w http.ResponseWriter, r *http.Request) {
 	var resp Resp
 	if seq < len(s.plan) {
 		resp = s.plan[seq]
+	} else if t, ok := s.tail.Load().(Resp); ok {
+		resp = t
 	}
 	if resp.Size < 0 {
 		resp.Size = 0
